@@ -61,16 +61,21 @@ def run_stream(cmd, lines, op_timeout, cwd=None):
             proc = subprocess.Popen([_PRLIMIT, "--as=%d" % (6 << 30)] + list(cmd), stdin=subprocess.PIPE, stdout=subprocess.PIPE, stderr=subprocess.PIPE, env=ENV, cwd=cwd)
         else:
             proc = subprocess.Popen(cmd, stdin=subprocess.PIPE, stdout=subprocess.PIPE, stderr=subprocess.PIPE, env=ENV, cwd=cwd, preexec_fn=_limits)
-        def writer():
+        # (the threads get THIS process and THIS feed as arguments: a closure over the loop variables would, after
+        # the loop has moved on to the next process, close the new process's stdin — seen as `crash exit0`)
+        def writer(p=proc, data=("\n".join(feed) + "\n").encode()):
             try:
-                proc.stdin.write(("\n".join(feed) + "\n").encode())
-                proc.stdin.close()
+                p.stdin.write(data)
+            except Exception:
+                pass
+            try:
+                p.stdin.close()
             except Exception:
                 pass
         err_chunks = []
-        def errreader():
+        def errreader(p=proc, sink=err_chunks):
             try:
-                err_chunks.append(proc.stderr.read()[-2000:])
+                sink.append(p.stderr.read()[-2000:])
             except Exception:
                 pass
         wt = threading.Thread(target=writer, daemon=True); wt.start()
